@@ -1275,6 +1275,14 @@ def compare_resp(ctx, case, obs, mo, impl):
     # (a request whose user-supplied framing headers lie about its body leaves bytes behind: not modelled here)
     user_req_framing = any(k.lower() in ("content-length", "transfer-encoding") for k, _ in case["req"].get("hdrs", []))
     if rel and "exc" not in cli and not user_req_framing:
+        if rel[0].get("lost"):
+            # connection_lost reached the client before it released the connection (e.g. a 100 Continue in front of the
+            # final response costs the caller one more loop iteration): protocol.should_close then only restates the
+            # server's close, it is not the client's own decision.  That is legitimate only if the server decided to close.
+            ctx.compare(case, "server-closed-before-client-release ka=0", f"server-closed-before-client-release ka={m['ka']}",
+                        "server closed first vs Aio.C02.respPrep keepAlive")
+            ctx.hit("client-release:after-connection-lost")
+            return
         client_closes = rel[0]["force"] or rel[0]["arg"] or rel[0]["proto"]
         model_closes = m["cclose"] == "1" or bool(case.get("fc"))
         # bytes left over on the connection also force a close (ResponseHandler.should_close)
